@@ -144,6 +144,7 @@ def run(tier, seed):
             not any(i.rule == 'ENERGY.nonneg' and not i.ok for i in rep.instances))
     rep.analysed['emission sites with constant energy'] = nen
     _delays(rep, flows)
+    _wrapper_energies(rep, flows)
     _counts(rep, ctx, flows, cg)
     _loops(rep, flows)
     _nan_exits(rep, ctx)
@@ -157,6 +158,139 @@ def run(tier, seed):
     rep.assumptions += ['not decided: a bound on the number of deviates per shot (acceptance probabilities are numerical), '
                         'finiteness of sampled (non-constant) energies, termination of deterministic loops']
     return rep
+
+
+def generation_flows(ctx):
+    prog = ctx.prog
+    cg = callgraph.CallGraph(prog)
+    roots = cg.keys_of('bxdecay0::genbbsub') + cg.keys_of('bxdecay0::dbd_gA::shoot') + \
+        cg.keys_of('bxdecay0::momentum_direction_lock_event_op::operator()')
+    scope = {k for k in cg.reachable(roots) if k[0].startswith('bxdecay0::')}
+    flows = {}
+    for k in sorted(scope):
+        fn = prog.functions[k]
+        if fn['name'] in ('genbbsub',):
+            continue
+        g, side = pathsum.unit_cfg(fn, ctx.sigs)
+        flows[k] = (fn, g, side)
+    return flows
+
+
+def _wrapper_energies(rep, flows, budget_rule=None):
+    """ENERGY.primitive: what an emission primitive makes of a constant energy argument is a non-negative kinetic energy"""
+    from .. import cpp2ir
+    if budget_rule is None:
+        rep.rule('ENERGY.primitive', 'an emission primitive (gamma, electron, positron, alpha, pair, ...) hands `particle` a kinetic energy computed from '
+             'its own energy parameter; at every call site with a literal energy that computed value is >= 0 (the convention "kinetic '
+             'energy of the pair" vs "transition energy" must be the same in the primitive and in each of its callers: e - 2 m_e of a '
+             'kinetic energy below 1.022 MeV is negative and its momentum NaN)')
+    CONST = {'$emass': Fraction(51099906, 100000000), '$pi': Fraction(355, 113)}
+
+    def ev(e, env, defs, depth=0):
+        if e[0] == 'num':
+            return e[1]
+        if e[0] == 'var':
+            if e[1] in env:
+                return env[e[1]]
+            if e[1] in CONST:
+                return CONST[e[1]]
+            ds = defs.get(e[1], [])
+            if len(ds) == 1 and depth < 24:
+                return ev(ds[0].stmt[2], env, defs, depth + 1)
+            return None
+        if e[0] == 'op':
+            vs = [ev(x, env, defs, depth + 1) for x in e[2:]]
+            if any(v is None for v in vs):
+                return None
+            o = e[1]
+            if o == '+':
+                return sum(vs)
+            if o == '-' and len(vs) == 2:
+                return vs[0] - vs[1]
+            if o in ('neg',) or (o == '-' and len(vs) == 1):
+                return -vs[0]
+            if o == '*':
+                r = Fraction(1)
+                for v in vs:
+                    r *= v
+                return r
+            if o == '/' and len(vs) == 2 and vs[1] != 0:
+                return vs[0] / vs[1]
+            if o == 'max':
+                return max(vs)
+            if o == 'min':
+                return min(vs)
+            if o == 'abs' and len(vs) == 1:
+                return abs(vs[0])
+        return None
+    prims = {}
+    for k, (fn, g, side) in flows.items():
+        nm = fn['qn'].split('::')[-1]
+        cal = side.callee(nm)
+        cal = tv.CALLEE_ALIAS.get(cal, cal)
+        if cal not in pathsum.EMIT:
+            continue
+        kept = [side.var(p['name'])[1] for p in fn['params'] if p['ty'] not in cpp2ir.CTX_TYPES and p['name'] != '']
+        idx = pathsum.EMIT[cal][0]
+        if idx >= len(kept):
+            continue
+        defs = {}
+        for n in g.nodes:
+            d = tv.node_def(n)
+            if d and n.kind == 'assign' and n.stmt[1][0] == 'var':
+                defs.setdefault(d, []).append(n)
+        pcalls = [n for n in g.nodes if n.kind == 'call' and n.stmt[1] == 'particle' and len(n.stmt[2]) >= 3]
+        if pcalls:
+            prims[cal] = (k, kept, idx, defs, pcalls)
+    nj = 0
+    for cal, (k, kept, idx, defs, pcalls) in sorted(prims.items()):
+        fnW = flows[k][0]
+        for k2, (fn2, g2, side2) in sorted(flows.items()):
+            for m in g2.nodes:
+                if m.kind != 'call' or tv.CALLEE_ALIAS.get(m.stmt[1], m.stmt[1]) != cal or len(m.stmt[2]) != len(kept):
+                    continue
+                a = m.stmt[2][idx]
+                if a[0] != 'num':
+                    continue
+                env = {kept[idx]: a[1]}
+                worst = None
+                for pc in pcalls:
+                    for ea in pc.stmt[2][1:3]:
+                        v = ev(ea, env, defs)
+                        if v is not None and (worst is None or v < worst[0]):
+                            worst = (v, pc, ea)
+                if worst is None:
+                    continue
+                nj += 1
+                if budget_rule is not None:
+                    tot = Fraction(0)
+                    for pc in pcalls:
+                        v = ev(pc.stmt[2][1], env, defs)
+                        tot = None if (v is None or tot is None) else tot + v
+                    if tot is not None and tot != a[1]:
+                        rep.add(budget_rule, '%s:%s:%s' % (fn2['name'], cal, float(a[1])), where(fn2, m.line),
+                                '%s: %s(%s MeV ...) emits kinetic energies that add up to its argument' % (fn2['name'], cal, float(a[1])), False,
+                                ['%s hands particle() kinetic energies that add up to %.6f MeV, not %s: the cascade closure of this unit (and the '
+                                 'reference) count the argument as the kinetic energy emitted (+ 1.022 MeV for a pair)'
+                                 % (fnW['name'], float(tot), float(a[1]))])
+                    continue
+                if worst[0] < 0:
+                    rep.add('ENERGY.primitive', '%s:%s:%s' % (fn2['name'], cal, float(a[1])), where(fn2, m.line),
+                            '%s: %s(%s MeV ...) emits a particle of non-negative kinetic energy' % (fn2['name'], cal, float(a[1])), False,
+                            ['%s computes `%s` = %.6f MeV from its argument (%s): negative kinetic energy, NaN momentum'
+                             % (fnW['name'], ir.fmt(worst[2])[:60], float(worst[0]), where(fnW, worst[1].line)),
+                             'the primitive and this caller disagree on what the argument means (kinetic energy of the emitted particles vs '
+                             'energy of the transition)'])
+    if budget_rule is not None:
+        rep.add(budget_rule, 'all', 'bxdecay0/', '%d call sites of %d emission primitives with a literal energy: the kinetic energies handed to '
+                'particle() add up to the argument (violations are listed per site)' % (nj, len(prims)), True, nontrivial=False)
+        rep.floor(budget_rule, nj, 200)
+        return
+    rep.add('ENERGY.primitive', 'all', 'bxdecay0/', '%d call sites of %d emission primitives with a literal energy: the kinetic energy the primitive '
+            'computes from it is >= 0 (violations are listed per site)' % (nj, len(prims)), True, nontrivial=False)
+    rep.analysed['primitive call sites with a literal energy evaluated through the primitive'] = nj
+    rep.floor('ENERGY.primitive', nj, 200)
+    rep.analysed['emission primitives that compute the kinetic energy they hand to particle()'] = sorted(prims)
 
 
 def _delays(rep, flows):
